@@ -692,3 +692,13 @@ func verifC09Rank(rx, ry, rz int) {}
 //@   ensures err == nil ==> proj != nil && fresh(proj) && proj.root != nil && fresh(proj.root) && proj.root.idx == -1 && proj.nFields >= 0 &&
 //@             (proj.root.Sub == nil || fresh(proj.root.Sub)) && (proj.row == nil || fresh(proj.row))
 //@   ensures err != nil ==> proj == nil
+
+// SortKeys rearranges the keys (every key still there, nothing new); the order it
+// leaves is the one of less over the projection's flattened fields (sort.Slice is
+// trusted to sort with respect to the comparison it is given).
+//@ func SortKeys(keys []Key)
+//@   props C09 C14
+//@   requires sameProj(keys) && (len(keys) > 0 ==> keys[0].k.proj != nil)
+//@   modifies keys, heap(Projection)
+//@   ensures forall a int :: 0 <= a < len(keys) ==> exists b int :: 0 <= b < len(keys) && keys[a] == old(keys[b])
+//@   ensures forall b int :: 0 <= b < len(keys) ==> exists a int :: 0 <= a < len(keys) && keys[a] == old(keys[b])
